@@ -209,3 +209,26 @@ class TCustom(PType):
 
     def make(self, st, name):
         return self.fn(st, name)
+
+
+def chain_hooks(*dicts):
+    """merge hook tables: for a hook name defined several times the functions are tried in order until one answers"""
+    names = {}
+    for d in dicts:
+        for k, f in (d or {}).items():
+            names.setdefault(k, [])
+            if f not in names[k]:
+                names[k].append(f)
+
+    def mk(fs):
+        if len(fs) == 1:
+            return fs[0]
+
+        def h(*a, **kw):
+            for f in fs:
+                r = f(*a, **kw)
+                if r is not None:
+                    return r
+            return None
+        return h
+    return {k: mk(fs) for k, fs in names.items()}
